@@ -24,7 +24,8 @@ Streams
       (no binding is valid).  Extending an empty structure must give exactly other (plus self's cell and tables),
       extending by an empty one must change no atom and no term;
   (W) the public spellings of the two arguments (op `extend_api`, model `Atoms.extendApi`): offsets as tuple / list /
-      numpy array of FOUR entries (the documented `(0,0,0,0)`; other with and without impropers) or five; identity maps
+      numpy array of FOUR entries (the documented `(0,0,0,0)`, and the first four numbers `extend_types` returns - a
+      non-zero atom offset - with impropers in other: their offset is then 0; other with and without impropers) or five; identity maps
       as dict / OrderedDict / MappingProxyType with python or numpy integers, with atoms counted from the end (negative
       keys and values), two spellings of one key, and - rejection - an index just outside [-n, n): IndexError with
       self left exactly as it was.  The oracle brings the map to plain indices itself and then applies the normal
@@ -483,6 +484,12 @@ def offsets_choice(rng, a, b, i):
 EXTEND_TYPES_FAILED = []   # (input, result) of extend_types calls that raised while cases were prepared; reported in run()
 
 
+def report_extend_types_failures(ctx):
+    while EXTEND_TYPES_FAILED:
+        inp_t, res_t = EXTEND_TYPES_FAILED.pop(0)
+        ctx.fail("extend_types raised %s while an explicit-offsets case was prepared" % res_t.get("err"), inp_t, observed=res_t)
+
+
 def make_case(a, b, mp, how):
     """-> list of (op dict, a-dump the op runs on, b, offsets list or None, map)"""
     if how is None:
@@ -801,14 +808,16 @@ def api_cases(ctx):
     out = []
     for s in range(ctx.n(90, 700)):
         na, nb = rng.randint(2, 7), rng.randint(2, 6)
-        with_imp = (s % 2 == 0)
+        with_imp = (s % 2 == 0) or (s % 7 == 6)     # mode off4types (s % 7 == 6) always has impropers in other
         a = gen.rand_atoms(rng, n=max(na, 4), kinds=KINDS, coeffs=True, pair=True, cell=False, term_density=rng.randint(1, 2))
         b = gen.rand_atoms(rng, n=max(nb, 4) if with_imp else nb, kinds=KINDS if with_imp else ["bond", "angle"],
                            coeffs=True, pair=True, cell=False, term_density=rng.randint(1, 2))
         a, b = _norm(a), _norm(rename_labels(rng, b))
         na, nb = len(a["atoms"]), len(b["atoms"])
         mp = rand_map(rng, nb, na, pmap=0.9)
-        mode = ["neg", "off4", "neg+off4", "out", "dupkey", "plain"][s % 6]
+        mode = ["neg", "off4", "neg+off4", "out", "dupkey", "plain", "off4types"][s % 7]
+        if mode == "off4types":
+            with_imp = True
         spell = {"map": rng.choice(["dict", "ordered", "proxy"]), "ints": rng.choice(["py", "np"]),
                  "offsets": rng.choice(["tuple", "list", "array"])}
         if "neg" in mode or mode == "dupkey":
@@ -825,7 +834,16 @@ def api_cases(ctx):
             bad = {"key": [nb, rng.randrange(na)], "value": [rng.randrange(nb), na],
                    "key-": [-nb - 1, rng.randrange(na)], "value-": [rng.randrange(nb), -na - 1]}[which]
             mp = [p for p in mp if p[0] % nb != bad[0] % nb][:2] + [bad]
-        if "off4" in mode:
+        if mode == "off4types":
+            # the first FOUR numbers extend_types returns (non-zero atom offset), other has impropers: the improper
+            # offset is then 0 by the documented reading of a four-entry tuple - not the atom offset, not anything else
+            et = _extend_types(a, b)
+            if "ok" in et:
+                a, offsets = et["ok"], et["offsets"][:4]
+            else:
+                EXTEND_TYPES_FAILED.append(({"op": "extend_types", "a": a, "b": b}, et))
+                offsets = [1, 0, 0, 0]
+        elif "off4" in mode:
             offsets = [0, 0, 0, 0] if rng.random() < 0.6 else None
             if offsets is None:
                 et = _extend_types(a, b)
@@ -846,20 +864,23 @@ def run(ctx, oracle_only=False):
     ops, impls = [], []
     del EXTEND_TYPES_FAILED[:]
     all_cases = cases(ctx)
-    for inp_t, res_t in EXTEND_TYPES_FAILED:
-        ctx.fail("extend_types raised %s while an explicit-offsets case was prepared" % res_t.get("err"), inp_t, observed=res_t)
+    report_extend_types_failures(ctx)
     for stream, inp in all_cases:
         r = check_extend(ctx, stream, inp)
         ops.append({k: v for k, v in inp.items() if k not in ("via", "a0", "strfields", "a_build", "b_build")})
         impls.append(r)
     # (W) public spellings of offsets and identity map
-    for mode, inp in api_cases(ctx):
+    w_cases = api_cases(ctx)
+    report_extend_types_failures(ctx)
+    for mode, inp in w_cases:
         r, side = _extend_api(inp["a"], inp["b"], inp["offsets"], inp["map"], inp["spell"])
         bad, known = judge_api(inp, r, side)
         ctx.case(inp, nontrivial=(mode != "plain"))
         ctx.count("stream:W:" + mode)
         if inp["offsets"] is not None and len(inp["offsets"]) == 4:
             ctx.count("W:offsets-of-4" + ("+impropers" if inp["b"]["terms"]["improper"] else ""))
+            if inp["offsets"][0] > 0 and inp["b"]["terms"]["improper"]:
+                ctx.count("W:offsets-of-4+impropers+nonzero-atom-offset")
         if bad:
             ctx.fail("public spelling (%s; %s): %s" % (mode, ", ".join("%s=%s" % kv for kv in sorted(inp["spell"].items())), bad),
                      inp, observed=r)
